@@ -24,7 +24,7 @@ struct CaseSpec {
   std::string profile = "c01";
   bool capi = false;
   // variant: cancellation placement
-  int cancelBuild = -1; long cancelStep = -1; int afterCancel = 0;  // 0 reset and reuse engine, 1 restart engine
+  int cancelBuild = -1; long cancelStep = -1; int afterCancel = 0;  // 0 reset and reuse engine, 1 restart engine; 2/3 the same, but first the external inputs go back to what they were at the last successful build and the same key is built once more
   // variant: schedule
   int schedMode = -1;  // -1 per profile; 0 all S0; 1 all S1 random; 2 S1 with prefix; 3 S2
   std::vector<unsigned> prefix; uint64_t schedSeed = 0;
@@ -259,6 +259,7 @@ static CaseResult runCase(const CaseSpec& spec, bool thorough) {
   };
   newEngine();
   int buildIdx = -1; bool mutatedSince = false, anyMutation = false;
+  std::vector<std::string> lastGoodExt; bool haveLastGood = false; int revertInsertedAt = -1;
   bool dbChecks = useDB && (spec.profile == "c03" || spec.profile == "c05" || spec.profile == "c20" || spec.profile == "c04");
 
   for (size_t oi = 0; oi < hist.size(); ++oi) {
@@ -321,8 +322,19 @@ static CaseResult runCase(const CaseSpec& spec, bool thorough) {
         if (!freshEngineOracle(prog, cx.world, op.key, cx.oracle, cx.oracleCycle, &why)) cx.viol("M-value: a brand-new engine disagrees with the reference evaluator for the current state", why);
       }
       if (dbChecks) checkDB(cx, dbPath, clientVersion, res);
+      bool wasCancelled = tr.cancelled; int builtKey = op.key;
+      if (tr.success) { lastGoodExt = cx.world.ext; haveLastGood = true; }
       if (cx.cancelIssued || tr.cancelled || !cx.errors.empty()) {
-        if (spec.afterCancel == 1 || !front->supportsReset()) { newEngine(); ++res.restarts; } else front->reset();
+        if ((spec.afterCancel & 1) || !front->supportsReset()) { newEngine(); ++res.restarts; } else front->reset();
+      }
+      if (wasCancelled && spec.afterCancel >= 2 && haveLastGood && (int)oi != revertInsertedAt) {
+        // A-B-A around the cancellation: whatever the cancelled build accepted from the intermediate state must not survive
+        std::vector<Op> extra;
+        for (size_t k = 0; k < prog.keys.size(); ++k)
+          if (prog.keys[k].isInput && cx.world.ext[k] != lastGoodExt[k]) { Op o; o.kind = Op::Set; o.key = (int)k; o.val = lastGoodExt[k]; extra.push_back(o); }
+        { Op o; o.kind = Op::Build; o.key = builtKey; extra.push_back(o); }
+        hist.insert(hist.begin() + oi + 1, extra.begin(), extra.end());   // `op` is dead from here on
+        revertInsertedAt = (int)oi;
       }
       break; }
     }
@@ -565,8 +577,8 @@ int main(int argc, char** argv) {
         if ((uint64_t)L <= cancelPointsPerBuild) for (long q = 0; q < L; ++q) points.push_back(q);
         else for (uint64_t q = 0; q < cancelPointsPerBuild; ++q) points.push_back((long)pr.below(L));
         for (long stp : points) {
-          for (int ac = 0; ac < 2; ++ac) {
-            if (!thorough && ((stp + ac + b) & 1)) continue;   // quick: alternate the two continuations
+          for (int ac = 0; ac < 4; ++ac) {
+            if (!thorough && (int)((stp + b) & 3) != ac) continue;   // quick: rotate through the four continuations
             CaseSpec sc = sbase; sc.cancelBuild = (int)b; sc.cancelStep = stp; sc.afterCancel = ac;
             gCurrentCase = specStr(sc); CaseResult rc = runCase(sc, thorough); t.add(rc); report(sc, rc, t); ++t.cancelPoints;
           }
@@ -576,7 +588,7 @@ int main(int argc, char** argv) {
       // threaded schedule (run on the tsan flavor): racing completions, discovery, and (c05t) foreign-thread cancellation
       CaseSpec st = s; st.profile = base.profile == "c05t" ? "c05" : "c06"; st.schedMode = 3;
       vf::Rng pr(base.seed * 131 + i);
-      if (base.profile == "c05t" || pr.chance(1, 4)) { st.cancelBuild = (int)pr.below(4); st.cancelStep = 50 + (long)pr.below(2000); st.afterCancel = (int)pr.below(2); }
+      if (base.profile == "c05t" || pr.chance(1, 4)) { st.cancelBuild = (int)pr.below(4); st.cancelStep = 50 + (long)pr.below(2000); st.afterCancel = (int)pr.below(4); }
       gCurrentCase = specStr(st); CaseResult r = runCase(st, thorough); t.add(r); report(st, r, t); sampleFrom(r);
     } else if (base.profile == "c06") {
       // reference: synchronous schedule; then enumerate / sample completion orders and compare outcomes
